@@ -9,6 +9,14 @@ VERIF = os.path.dirname(os.path.dirname(os.path.abspath(__file__)))
 sys.path.insert(0, os.path.join(VERIF, "sa"))
 import claims  # noqa: E402
 
+import glob
+for fn in sorted(glob.glob(os.path.join(VERIF, "sa", "claims.d", "*.json"))):
+    with open(fn) as f:
+        for k, v in json.load(f).items():
+            claims.CLAIMS.setdefault(k, v)
+            if "note" in v and not v["note"].startswith("Trusted base"):
+                v["note"] = claims.TB + v["note"]
+
 props = {}
 with open(os.path.join(VERIF, "properties.jsonl")) as f:
     for line in f:
